@@ -100,6 +100,10 @@ const (
 	rqPanic
 	rqKilled
 	rqMark
+	rqRWLock
+	rqRWUnlock
+	rqRWRLock
+	rqRWRUnlock
 )
 
 type request struct {
@@ -379,6 +383,61 @@ func (m *Mutex) Unlock() {
 		t.ask(request{kind: rqUnlock, ptr: unsafe.Pointer(m)})
 	}
 	m.mu.Unlock()
+}
+
+// RWMutex wraps sync.RWMutex. The model follows the documented behaviour that matters for
+// deadlocks: a Lock call that is waiting excludes new readers (so recursive read locking can block
+// for ever once a writer has arrived).
+type RWMutex struct {
+	mu sync.RWMutex
+}
+
+//go:norace
+func (m *RWMutex) Lock() {
+	if active {
+		t := cur
+		if t.killed {
+			runtime.Goexit()
+		}
+		t.ask(request{kind: rqRWLock, ptr: unsafe.Pointer(m), site: "RWMutex.Lock"})
+	}
+	m.mu.Lock()
+}
+
+//go:norace
+func (m *RWMutex) Unlock() {
+	if active {
+		t := cur
+		if t.killed {
+			return
+		}
+		t.ask(request{kind: rqRWUnlock, ptr: unsafe.Pointer(m)})
+	}
+	m.mu.Unlock()
+}
+
+//go:norace
+func (m *RWMutex) RLock() {
+	if active {
+		t := cur
+		if t.killed {
+			runtime.Goexit()
+		}
+		t.ask(request{kind: rqRWRLock, ptr: unsafe.Pointer(m), site: "RWMutex.RLock"})
+	}
+	m.mu.RLock()
+}
+
+//go:norace
+func (m *RWMutex) RUnlock() {
+	if active {
+		t := cur
+		if t.killed {
+			return
+		}
+		t.ask(request{kind: rqRWRUnlock, ptr: unsafe.Pointer(m)})
+	}
+	m.mu.RUnlock()
 }
 
 //go:norace
